@@ -64,12 +64,7 @@ Proof. induction l; cbn; congruence. Qed.
 
 (* with a prefix too: every member set, every prefix, every show/hide list *)
 Lemma prefix_filter m p e : forward_view m (Some p) e = spec_forward_view m (Some p) e.
-Proof.
-  unfold forward_view, spec_forward_view, rename. f_equal.
-  - apply filter_ext. intros; apply allow_var_visible.
-  - apply filter_ext. intros; apply allow_fun_visible.
-  - apply filter_ext. intros; apply allow_fun_visible.
-Qed.
+Proof. destruct e; reflexivity. Qed.
 
 Lemma forward_ok m pfx e : forward_view m pfx e = spec_forward_view m pfx e.
 Proof. destruct pfx; [apply prefix_filter | apply show_hide]. Qed.
